@@ -615,10 +615,96 @@ def oracle_shared(a):
     return None
 
 
+# ------------------------------------------------------------------ namespace scopes below wrapper elements
+def gen_scoped(rng, tier):
+    """universes in which a value needs a prefix (QName items, QName attributes of items, `xsi:type` of
+    instances of a subclass in a namespace, prefixed values of an Attributes map) under a list field,
+    wrapped or not; the namespaces of the values are sometimes those of the ancestors (prefix declared
+    above) and sometimes new (prefix declared on the item itself, or on the wrapper's first item)"""
+    f = W._f
+    NONE, LIST = {"value": None}, {"factory": "list"}
+    for desc, value in (W.WRAP_QNAME, W.WRAP_SUB_NS, W.WRAP_ITEM_QNAME_ATTR):
+        u = B.Universe(desc)
+        _UNIS[u.modname] = u
+        yield {"ctx": u.export_ctx(), "value": value, "clazz": "Root", "desc": desc, "_uni": u.modname, "feat": W.FEAT}
+    for _ in range(n_cases(tier, 40, 500)):
+        root_ns = rng.choice([None, None, "urn:a", "urn:r"])
+        nss = ["urn:a", "urn:q", "urn:colors"] + ([root_ns] if root_ns else [])
+
+        def qn():
+            ns = rng.choice(nss + [None])
+            return {"qname": ("{%s}" % ns if ns else "") + rng.choice(["n1", "n2", "red"])}
+
+        md = {"type": "Element"}
+        if rng.random() < 0.75:
+            md["wrapper"] = "items"
+        if rng.random() < 0.3:
+            md["name"] = "it"
+        if rng.random() < 0.25:
+            md["namespace"] = rng.choice(["urn:a", "urn:f"])
+        kind = rng.choice(["qname-items", "sub-items", "item-qname-attr", "item-map", "same-item-name"])
+        if kind == "same-item-name":
+            # two wrapped lists whose items share one element name: the parser tells them apart by the
+            # wrapper it met them under (`ElementNode.wrappers`, a queue per item name)
+            desc = {"classes": [{"name": "Root", "fields": [
+                f("a", {"list": "int"}, LIST, type="Element", name="item", wrapper="as"),
+                f("b", {"list": "str"}, LIST, type="Element", name="item", wrapper="bs"),
+                f("c", {"list": "int"}, LIST, type="Element", name="item", wrapper="cs")]}]}
+            value = {"obj": "Root", "fields": [
+                ["a", {"list": [{"int": rng.randint(0, 9)} for _ in range(rng.randint(0, 3))]}],
+                ["b", {"list": [{"str": rng.choice(["x", "7", "y z"])} for _ in range(rng.randint(0, 3))]}],
+                ["c", {"list": [{"int": rng.randint(0, 9)} for _ in range(rng.randint(0, 2))]}]]}
+            u = B.Universe(desc)
+            _UNIS[u.modname] = u
+            yield {"ctx": u.export_ctx(), "value": value, "clazz": "Root", "desc": desc, "_uni": u.modname, "feat": W.FEAT}
+            continue
+        rootf = []
+        if rng.random() < 0.3:   # a QName attribute on the root may already declare the prefix above
+            rootf.append(f("p", {"opt": "qname"}, NONE, type="Attribute"))
+        classes = []
+        n = rng.randint(0, 3)
+        if kind == "qname-items":
+            rootf.append(f("refs", {"list": "qname"}, LIST, **md))
+            val = {"list": [qn() for _ in range(n)]}
+        elif kind == "sub-items":
+            sub_ns = rng.choice([None, "urn:s", root_ns])
+            classes = [{"name": "Base", "fields": [f("z", {"opt": "str"}, NONE, type="Element")]},
+                       {"name": "Sub", "bases": ["Base"], "fields": [f("extra", {"opt": "int"}, NONE, type="Element")],
+                        **({"meta": {"namespace": sub_ns}} if sub_ns else {})}]
+            rootf.append(f("refs", {"list": {"cls": "Base"}}, LIST, **md))
+            val = {"list": [rng.choice([
+                {"obj": "Base", "fields": [["z", {"str": "a"}]]},
+                {"obj": "Sub", "fields": [["z", rng.choice([None, {"str": "b"}])], ["extra", {"int": rng.randint(0, 9)}]]}])
+                for _ in range(n)]}
+        elif kind == "item-qname-attr":
+            classes = [{"name": "Leaf", "fields": [f("q", {"opt": "qname"}, NONE, type="Attribute"),
+                                                    f("z", {"opt": "str"}, NONE, type="Element")]}]
+            rootf.append(f("refs", {"list": {"cls": "Leaf"}}, LIST, **md))
+            val = {"list": [{"obj": "Leaf", "fields": [["q", rng.choice([None, qn()])], ["z", rng.choice([None, {"str": "x"}])]]}
+                            for _ in range(n)]}
+        else:
+            classes = [{"name": "Leaf", "fields": [f("m", {"dict": 1}, {"factory": "dict"}, type="Attributes", namespace="##any"),
+                                                    f("z", {"opt": "str"}, NONE, type="Element")]}]
+            rootf.append(f("refs", {"list": {"cls": "Leaf"}}, LIST, **md))
+            val = {"list": [{"obj": "Leaf", "fields": [["m", {"attrs": rng.choice([[], [["{urn:q}k", "v"]], [["k", "a b"]]])}],
+                                                         ["z", rng.choice([None, {"str": "x"}])]]} for _ in range(n)]}
+        root = {"name": "Root", "fields": rootf}
+        if root_ns:
+            root["meta"] = {"namespace": root_ns}
+        desc = {"classes": classes + [root]}
+        fields = ([["p", rng.choice([None, qn()])]] if len(rootf) == 2 else []) + [["refs", val]]
+        u = B.Universe(desc)
+        _UNIS[u.modname] = u
+        yield {"ctx": u.export_ctx(), "value": {"obj": "Root", "fields": fields}, "clazz": "Root", "desc": desc, "_uni": u.modname,
+               "feat": W.FEAT, "ignore_default_attributes": rng.random() < 0.3}
+
+
 ORACLES = [
     Oracle("roundtrip", gen_oracle, oracle_roundtrip, covered=covered_oracle,
            from_ops=("bind.roundtrip", "bind.generate"), adapt=adapt_oracle, adapt_disagreement=adapt_disagreement),
     Oracle("roundtrip-wide", gen_wide, oracle_roundtrip, covered=covered_wide),
+    # prefixes declared on wrapped items (in and outside the fragments; a failure must be what the model does)
+    Oracle("roundtrip-scoped", gen_scoped, oracle_roundtrip, covered=covered_wide),
     Oracle("shared-context", gen_shared, oracle_shared),
     # the shapes of the repaired defects (corpus/C01/roundtrip-repaired-*.json) must round-trip: no excuse
     Oracle("roundtrip-repaired", lambda rng, tier: corpus_roundtrip("roundtrip-repaired-*.json"), oracle_roundtrip),
